@@ -115,7 +115,7 @@ def handle (ws : List String) : String :=
     -- lets pass or panics with again is still the halt (`halt_not_caught`); a closed channel delivers nothing
     let t := match v with
       | "0" => "returned:caught:TypeError:_from_host;then:1,<nil>;rest:ok;follow:ok"
-      | "1" | "3" => "halted;rest:ok;follow:ok"
+      | "1" | "3" | "tostring" | "tostring-call" => "halted;rest:ok;follow:ok"
       | "2" => "returned:returned;then:1,<nil>;rest:ok;follow:ok"
       | "closed" => "returned:110,<nil>;rest:ok;follow:ok"
       | _ => "bad-op"
